@@ -138,13 +138,38 @@ def scan_closure_ok(facts, clo):
     return None
 
 
+def scratch_cleared_after_use(b, l):
+    """the scratch Vob is created all-false and every way from a growing write to the item loop's header passes set_all(false)"""
+    if l is None:
+        return False
+    loops = b.loops()
+    addb = [bb for bb, t_ in b.calls_named('add') if 'Itemset' in (cpath(t_) or '')]
+    outs = [h for h in loops if any(a in loops[h] for a in addb)]
+    if not outs:
+        return False
+    outer = max(outs, key=lambda h: len(loops[h]))
+    init_ok = any(d[1] == 'call' and cname(d[2]) in ('from_elem', 'from_elem_with_storage_type') and len(d[2]['args']) >= 1
+                  and any((op_const(a) or {}).get('int') == 0 and (op_const(a) or {}).get('ty') == 'bool' for a in d[2]['args']) for d in b.defs().get(l, []))
+    if not init_ok:
+        return False
+    resets = {bb for bb, t_ in b.calls_named('set_all') if t_['args'] and b.op_root(t_['args'][0])[0] == l and (op_const(t_['args'][-1]) or {}).get('int') == 0}
+    grows = [bb for bb, t_ in b.calls() if cname(t_) in ('or', 'set') and t_['args'] and op_local(t_['args'][0]) is not None
+             and b.lty(op_local(t_['args'][0])).startswith('&mut ') and b.op_root(t_['args'][0])[0] == l]
+    if not resets or not grows:
+        return False
+    return all(outer not in b.reachable(starts=b.succs(g), avoid=resets) for g in grows)
+
+
 def r12(facts, res):
     R = 'R1.2'
     b = one_fn(facts, R, res, 'lrtable::itemset::Itemset::close')
     if b is None:
         return
     loops = b.loops()
-    isb = b.calls_named('iter_set_bits')
+    # the scratch look-ahead set (what Itemset::add is given) is not the pending-work bit field: a debug_assert over it is no anchor
+    _adds = [t for _bb, t in b.calls_named('add') if 'Itemset' in (cpath(t) or '') and len(t['args']) >= 4]
+    _ctx = b.op_root(_adds[0]['args'][3])[0] if _adds else None
+    isb = [(bb, t) for bb, t in b.calls_named('iter_set_bits') if not (t['args'] and _ctx is not None and b.op_root(t['args'][0])[0] == _ctx)]
     if len(isb) != 1:
         res.lost(R, 'iter_set_bits anchor lost in Itemset::close')
         return
@@ -228,7 +253,10 @@ def r12(facts, res):
         ctx_root = b.op_root(b.term(adds[0][1])['args'][3])[0]
         mine = [e for e in vob_calls if b.term(e[1])['args'] and b.op_root(b.term(e[1])['args'][0])[0] == ctx_root]
         if not mine or mine[0][2]['name'] != 'set_all' or mine[0][3][1] != ('const', 0):
-            bad.append('the scratch context is not cleared (set_all(false)) before it is filled for this expansion: lookaheads of the previous item leak in')
+            # the other way of keeping it clean: it starts out all-false and is cleared again AFTER every use (each way from a write to the
+            # next round of the item loop passes a set_all(false))
+            if not scratch_cleared_after_use(b, ctx_root):
+                bad.append('the scratch context is not cleared (set_all(false)) before it is filled for this expansion: lookaheads of the previous item leak in')
         # (c) context of the same item ored in iff the nullable flag survived
         ors = [e for e in mine if e[2]['name'] == 'or']
         inherit = [e for e in ors if term_has(e[3][1], lambda x: isinstance(x, tuple) and len(x) > 3 and x[0] == 'field' and x[3] == 'items')]
@@ -589,8 +617,11 @@ def r15(facts, res):
         both = [h for h in loops if rb in loops[h] and any(u in loops[h] for u in use_blocks)]
         h_item = min(both, key=lambda x: len(loops[x])) if both else None
         avoid = set(use_blocks) | ({h_item} if h_item is not None else set())
+        # ... and the reset itself is followed by a use of the same item (a reset after the last use only prepares the next item)
+        hi = {h_item} if h_item is not None else set()
+        used_after = any(u in b.reachable(starts=b.succs(rb), avoid=hi) for u in use_blocks)
         for g, _gt in grows:
-            if rb in b.reachable(starts=b.succs(g), avoid=avoid):
+            if used_after and rb in b.reachable(starts=b.succs(g), avoid=avoid):
                 bad.append('line %s: the look-ahead set is reset after something was collected into it and before it is used' % rt.get('line'))
                 break
     if not grows or not resets:
